@@ -4,7 +4,7 @@ usage: tools/seed_verify.py <srcdir with patch.diff, demo.py, notes.md> <name> <
 Everything happens in a scratch worktree of /repo under /tmp which is removed afterwards.
 Writes /verif/seeded/<name>/{patch.diff,demo.py,notes.md,meta.json}."""
 import json, os, shutil, subprocess, sys, tempfile, time
-src, name, tier, ids = sys.argv[1], sys.argv[2], sys.argv[3], sys.argv[4:]
+src, name, tier, ids = os.path.abspath(sys.argv[1]), sys.argv[2], sys.argv[3], sys.argv[4:]
 ROOT = os.path.dirname(os.path.dirname(os.path.abspath(__file__)))
 wt = tempfile.mkdtemp(prefix='seedv-', dir='/tmp')
 def sh(cmd, **kw):
